@@ -363,6 +363,9 @@ def run(rep):
     for res in R.recovery_cases(rep.seed, thorough=rep.tier == 'thorough'):
         rep.add_bounded(f"{P}/bounded.{res['name']}", res['ok'], res['detail'], replay={'kind': 'c12.case', 'name': res['name'], 'seed': rep.seed})
         n += 1
+    for res in R.verbose_cases():
+        rep.add_bounded(f"{P}/bounded.{res['name']}", res['ok'], res['detail'], replay={'kind': 'c12.verbose', 'name': res['name']})
+        n += 1
     rep.extra_cov['explanation'] = (f"rmse definition, bounds/guess call site, parameter assignment, failure handling, clamping and the best-of-list rule are "
                                     f"discharged obligations; {n} bounded cases (generator recovery, error identity on noisy data, refit stability, unit "
                                     f"covariance, branch selection, from_modelisotherm) use the real optimiser and are not counted as proved")
